@@ -18,6 +18,8 @@ for pid, spec in props.PROPS.items():
             c[o['rule']] += 1
             okc[o['rule']] += 1 if o['ok'] else 0
     # a rule that only ever reports failures (LK3: one obligation per offending site) has no anchor count to defend
-    out[pid] = {r: (n if r not in SITE_RULES else int(n * 0.6)) for r, n in sorted(c.items()) if r != 'FLOOR' and okc[r] > 0}
+    # exact for the kernel census (ROLES); half of the counted number for everything else: a legitimate refactoring can merge call
+    # sites or route one entry point through another (fewer instances), while a vanished anchor or a mis-spelt role drops a rule to 0
+    out[pid] = {r: (n if r == 'ROLES' else max(1, int(n * 0.5))) for r, n in sorted(c.items()) if r != 'FLOOR' and okc[r] > 0}
 json.dump(out, open(os.path.join(HERE, 'gdslint', 'floors.json'), 'w'), indent=1, sort_keys=True)
 print({p: sum(v.values()) for p, v in out.items()})
